@@ -514,9 +514,14 @@ class Logix( Message_Router ):
             result	       += USINT.produce(	data.service )
             result	       += EPATH.produce(	data.path )
             result	       += UINT.produce(		data.write_tag.type )
+            if data.write_tag.type == STRUCT.tag_type:
+                # A STRUCT's type is followed by its structure_tag, *before* the element count
+                result	       += UINT.produce(	data.write_tag.structure_tag )
             result	       += UINT.produce(		data.write_tag.setdefault( 
                 'elements', len( data.write_tag.data )))
-            result	       += typed_data.produce(	data.write_tag )
+            result	       += ( STRUCT.produce(	data.write_tag )
+                                    if data.write_tag.type == STRUCT.tag_type
+                                    else typed_data.produce( data.write_tag ))
         elif ( data.get( 'service') == cls.WR_FRG_REQ
                or 'write_frag' in data and data.setdefault( 'service', cls.WR_FRG_REQ ) == cls.WR_FRG_REQ ):
             # We can NOT deduce the number of elements from len( write_frag.data );
@@ -526,10 +531,15 @@ class Logix( Message_Router ):
             result	       += USINT.produce(	data.service )
             result	       += EPATH.produce(	data.path )
             result	       += UINT.produce(		data.write_frag.type )
+            if data.write_frag.type == STRUCT.tag_type:
+                # A STRUCT's type is followed by its structure_tag, *before* the element count
+                result	       += UINT.produce(	data.write_frag.structure_tag )
             result	       += UINT.produce(		data.write_frag.elements )
             result	       += UDINT.produce(	data.write_frag.setdefault(
                 'offset', 0x00000000 ))
-            result	       += typed_data.produce(	data.write_frag )
+            result	       += ( STRUCT.produce(	data.write_frag )
+                                    if data.write_frag.type == STRUCT.tag_type
+                                    else typed_data.produce( data.write_frag ))
         elif ( data.get( 'service' ) == cls.WR_TAG_RPY
                or data.get( 'service' ) == cls.WR_FRG_RPY ):
             result	       += USINT.produce(	data.service )
